@@ -113,6 +113,31 @@ def c09_hostile(expr, genvar=None, frame=False, typeattr=False, refuse=False):
     return res
 
 
+def c09_pure(expr):
+    """an allowed expression whose arguments are values held by the record: nothing of the record changes, no method of a held value is invoked"""
+    from flow.record import RecordDescriptor
+    from flow.record.selector import Selector
+
+    log = []
+
+    class Can:
+        def gettypename(self):
+            log.append("gettypename")
+            return "string"
+
+        def lower(self):
+            log.append("lower")
+            return self
+
+    rec = RecordDescriptor("c09/can", [("varint", "n"), ("string", "s"), ("string[]", "tags"), ("record", "c")])(n=5, s="abc", tags=["Wheel", "ROOT", "adm"], c=Can())
+    try:
+        Selector(expr).match(rec)
+    except Exception:
+        pass
+    bad = list(rec.tags) != ["Wheel", "ROOT", "adm"] or bool(log)
+    return {"violates": bad, "detail": f"{expr!r}: the list field is now {list(rec.tags)}; methods of a held value invoked: {log}" if bad else None}
+
+
 def c09_dunder(expr):
     out, calls, changed = _attack(expr)
     name = expr.rsplit(".", 1)[-1]
@@ -165,4 +190,4 @@ def c09_sandbox_fuzz(seed, n):
     return {"violates": False, "cases": cases}
 
 
-CALLS = {"c09_eval": c09_eval, "c09_hostile": c09_hostile, "c09_dunder": c09_dunder, "c09_sandbox_fuzz": c09_sandbox_fuzz}
+CALLS = {"c09_pure": c09_pure, "c09_eval": c09_eval, "c09_hostile": c09_hostile, "c09_dunder": c09_dunder, "c09_sandbox_fuzz": c09_sandbox_fuzz}
